@@ -1066,25 +1066,76 @@ impl Check for MappingCheck {
 }
 
 fn alias_check(b: &Arc<Buffer<u8>>, off: usize) -> Result<(), String> {
+    // Byte i and byte i+size must be the same memory, in both directions:
+    // what is written through one half must be read back through the other.
     let cap = b.total_size();
+    let off = off % cap;
+    let pat = |i: usize| ((i * 31 + off * 7 + 3) % 251) as u8;
+    // (1) Write a full window starting at `off`: ring positions 0..off are
+    // written through the SECOND half (addresses cap..cap+off).
     b.verif_preroll(off);
     let mut w = b.clone().write_buf().map_err(|e| e.to_string())?;
     if w.len() != cap {
         return Err(format!("empty buffer offers {} of {cap}", w.len()));
     }
     for (i, p) in w.slice().iter_mut().enumerate() {
-        *p = ((i * 31 + off) % 251) as u8;
+        *p = pat(i);
     }
     w.produce(cap, &[]);
     let (r, _) = b.clone().read_buf().map_err(|e| e.to_string())?;
-    for (i, v) in r.slice().iter().enumerate() {
-        if *v != ((i * 31 + off) % 251) as u8 {
-            return Err(format!("offset {off}: byte {i} of a window spanning the wrap reads {v}, wrote {}", (i * 31 + off) % 251));
+    if let Some(i) = (0..cap).find(|&i| r.slice()[i] != pat(i)) {
+        return Err(format!("offset {off}: byte {i} of a window spanning the wrap reads {}, wrote {}", r.slice()[i], pat(i)));
+    }
+    // Consume up to the wrap: the remaining `off` samples are now read through
+    // the FIRST half (addresses 0..off).
+    r.consume(cap - off);
+    let (r, _) = b.clone().read_buf().map_err(|e| e.to_string())?;
+    if r.len() != off {
+        return Err(format!("offset {off}: {} samples readable after consuming to the wrap, expected {off}", r.len()));
+    }
+    if let Some(i) = (0..off).find(|&i| r.slice()[i] != pat(cap - off + i)) {
+        return Err(format!(
+            "offset {off}: ring byte {i} was written through the second half of the mapping as {} but reads {} through the first half: the halves do not alias",
+            pat(cap - off + i),
+            r.slice()[i]
+        ));
+    }
+    r.consume(off);
+    // (2) The other direction: write ring positions 0..off through the FIRST
+    // half, read them through the SECOND half of a window starting at `off`.
+    b.verif_preroll(0);
+    let mut w = b.clone().write_buf().map_err(|e| e.to_string())?;
+    for (i, p) in w.slice().iter_mut().enumerate() {
+        *p = pat(i + 1000);
+    }
+    w.produce(cap, &[]);
+    let (r, _) = b.clone().read_buf().map_err(|e| e.to_string())?;
+    r.consume(off);
+    let mut w = b.clone().write_buf().map_err(|e| e.to_string())?;
+    if w.len() != off {
+        return Err(format!("offset {off}: write window after consuming {off} has {} slots", w.len()));
+    }
+    for (i, p) in w.slice().iter_mut().enumerate() {
+        *p = pat(i + 5000);
+    }
+    w.produce(off, &[]);
+    let (r, _) = b.clone().read_buf().map_err(|e| e.to_string())?;
+    if r.len() != cap {
+        return Err(format!("offset {off}: full buffer shows {} samples", r.len()));
+    }
+    for i in 0..cap {
+        let want = if i < cap - off { pat(off + i + 1000) } else { pat(i - (cap - off) + 5000) };
+        if r.slice()[i] != want {
+            return Err(format!(
+                "offset {off}: window byte {i} (ring byte {}) reads {} but {} was written{}: the halves do not alias",
+                (off + i) % cap,
+                r.slice()[i],
+                want,
+                if i >= cap - off { " through the first half and is read through the second" } else { "" }
+            ));
         }
     }
     r.consume(cap);
-    // Now read through the *other* half: window at offset 0 sees what was
-    // written at ring positions 0.. through the second mapping.
     b.verif_preroll(0);
     Ok(())
 }
